@@ -1421,3 +1421,114 @@ TWINS += [
     {"name": "options:bounds-computed-first", "edits": [(C, _UNICODE_INIT, "        lower = int(minlength) if length is None else int(length)\n        upper = (\"\" if maxlength is None else str(int(maxlength))) if length is None else str(int(length))\n        self.regex = \"[^/]{\" + str(lower) + \",\" + upper + \"}\"\n")]},
     {"name": "options:fixed-digits-check-rewritten", "edits": [(C, _FIXED_CHECK, "        wanted = self.fixed_digits\n        if wanted and not (len(value) == wanted):\n            raise ValidationError()")]},
 ]
+
+
+# ---- round 5 (stress run with fresh neutral refactorings of the functions behind R3.7-R3.10 and the new R3.1 clauses):
+# the regex text collected as a list of pieces and joined; compiled part patterns kept in a cache; `format` / `%` with
+# several fields; the loop body of Map.add moved into a private method
+_S5_APPLY = "                match = re.compile(test_part.content).match(target)\n"
+_S5_INIT = "        self._root = State()\n"
+_S5_INIT_CACHE = "        self._root = State()\n        self._patterns: dict[str, t.Pattern[str]] = {}\n"
+_S5_CACHE_INLINE = (
+    "                pattern = self._patterns.get(test_part.content)\n"
+    "                if pattern is None:\n"
+    "                    pattern = re.compile(test_part.content)\n"
+    "                    self._patterns[test_part.content] = pattern\n"
+    "                match = pattern.%s(target)\n"
+)
+_S5_CACHE_METHOD = (
+    "    def _compiled(self, content: str) -> t.Pattern[str]:\n"
+    "        pattern = self._patterns.get(content)\n"
+    "        if pattern is None:\n"
+    "            pattern = self._patterns[content] = re.compile(content)\n"
+    "        return pattern\n"
+    "\n"
+    "    def match(\n"
+)
+_S5_MATCH_AT = "    def match(\n"
+_S5_P_INIT = '        content = ""\n        static = True\n        argument_weights = []\n'
+_S5_P_STATIC = '                content += data["static"] if static else re.escape(data["static"])\n'
+_S5_P_SWITCH = '                    content = re.escape(content)\n'
+_S5_P_GROUP = '                content += f"(?P<__werkzeug_{convertor_number}>{convobj.regex})"\n'
+_S5_P_SLASH = '                if final:\n                    content += "/"\n                else:\n                    if not static:\n                        content += r"\\Z"\n'
+_S5_P_YIELD1 = '                    yield RulePart(\n                        content=content,\n                        final=final,\n                        static=static,\n                        suffixed=False,\n                        weight=weight,\n                    )\n                    content = ""\n'
+_S5_P_TAIL = '        suffixed = False\n        if final and content[-1] == "/":\n'
+_S5_ANCHOR = '                    if not static:\n                        pieces.append(r"\\Z")\n'
+_S5_HELPER_AT = "def _pythonize(value: str) -> None | bool | int | float | str:\n"
+
+
+def _s5_pieces(append=lambda x: f"pieces.append({x})", anchor=_S5_ANCHOR, join='"".join(pieces)', reset="pieces = []"):
+    return [
+        (R, _S5_P_INIT, '        pieces: list[str] = []\n        static = True\n        argument_weights = []\n'),
+        (R, _S5_P_STATIC, '                ' + append('data["static"] if static else re.escape(data["static"])') + '\n'),
+        (R, _S5_P_SWITCH, '                    pieces = [re.escape(' + join + ')]\n'),
+        (R, _S5_P_GROUP, '                ' + append('f"(?P<__werkzeug_{convertor_number}>{convobj.regex})"') + '\n'),
+        (R, _S5_P_SLASH, '                if final:\n                    ' + append('"/"') + '\n                else:\n' + anchor),
+        (R, _S5_P_YIELD1, '                    yield RulePart(\n                        content=' + join + ',\n                        final=final,\n                        static=static,\n                        suffixed=False,\n                        weight=weight,\n                    )\n                    ' + reset + '\n'),
+        (R, _S5_P_TAIL, '        suffixed = False\n        content = ' + join + '\n        if final and content[-1] == "/":\n'),
+    ]
+
+
+_S5_JOIN_TAIL = (R, _S5_P_TAIL, '        suffixed = False\n        content = "".join(pieces)\n        if final and content[-1] == "/":\n')
+_S5_TEXT_HELPER = 'def _text(pieces: list[str], static: bool) -> str:\n    text = "".join(pieces)\n    return text if static else text + %s\n\n\n'
+_S5_CLOSE_HELPER = 'def _close(pieces: list[str], static: bool) -> None:\n    if %s:\n        pieces.append(r"\\Z")\n\n\n'
+_S5_TAIL_ANCHOR = '        if not static:\n            content += r"\\Z"\n        weight = Weighting('
+_S5_SUFFIX = '            content = content[:-1] + "(?<!/)(/?)"\n'
+
+
+def _s5_tail(expr):
+    return [(R, _S5_TAIL_ANCHOR, '        if not static:\n            content = ' + expr + '\n        weight = Weighting(')]
+
+
+_S5_ADD_BODY = "        for rule in rulefactory.get_rules(self):\n            rule.bind(self)\n            if not rule.build_only:\n                self._matcher.add(rule)\n            self._rules_by_endpoint.setdefault(rule.endpoint, []).append(rule)\n        self._remap = True\n"
+_S5_ADD_HELPER = "\n    def _add_rule(self, rule: Rule) -> None:\n        rule.bind(self)\n        if not rule.build_only:\n            self._matcher.add(rule)\n        self._rules_by_endpoint.setdefault(rule.endpoint, []).append(rule)\n"
+_S5_ADD_LOOP = "        for rule in rulefactory.get_rules(self):\n            self._add_rule(rule)\n"
+
+TWINS += [
+    {"name": "stress5:part-patterns-cached-on-the-matcher", "edits": [(M, _S5_INIT, _S5_INIT_CACHE), (M, _S5_APPLY, _S5_CACHE_INLINE % "match")]},
+    {"name": "stress5:part-patterns-cached-by-a-method", "edits": [(M, _S5_INIT, _S5_INIT_CACHE), (M, _S5_MATCH_AT, _S5_CACHE_METHOD), (M, _S5_APPLY, "                match = self._compiled(test_part.content).match(target)\n")]},
+    {"name": "stress5:part-patterns-cached-with-setdefault", "edits": [(M, _S5_INIT, _S5_INIT_CACHE), (M, _S5_APPLY, "                pattern = self._patterns.setdefault(test_part.content, re.compile(test_part.content))\n                match = pattern.match(target)\n")]},
+    {"name": "stress5:part-patterns-cached-walrus-and-chained-assignment", "edits": [(M, _S5_INIT, _S5_INIT_CACHE), (M, _S5_APPLY, "                if (pattern := self._patterns.get(test_part.content)) is None:\n                    pattern = self._patterns[test_part.content] = re.compile(test_part.content)\n                match = pattern.match(target)\n")]},
+    {"name": "stress5:part-patterns-cached-in-a-module-dict", "edits": [(M, "class SlashRequired(Exception):\n", "_PATTERNS: dict[str, t.Pattern[str]] = {}\n\n\nclass SlashRequired(Exception):\n"), (M, _S5_APPLY, "                pattern = _PATTERNS.get(test_part.content)\n                if pattern is None:\n                    pattern = _PATTERNS[test_part.content] = re.compile(test_part.content)\n                match = pattern.match(target)\n")]},
+    {"name": "stress5:regex-pieces-appended-and-joined", "edits": _s5_pieces()},
+    {"name": "stress5:regex-pieces-iadd-extend-clear", "edits": _s5_pieces(append=lambda x: f"pieces += [{x}]", anchor='                    if not static:\n                        pieces.extend([r"\\Z"])\n', reset="pieces.clear()")},
+    {"name": "stress5:regex-pieces-joined-through-a-generator", "edits": _s5_pieces(join='"".join(piece for piece in pieces)')},
+    {"name": "stress5:regex-pieces-joined-and-anchored-by-a-helper", "edits": _s5_pieces(anchor="", join="_text(pieces, static)")[:6] + [_S5_JOIN_TAIL, (R, _S5_HELPER_AT, _S5_TEXT_HELPER % 'r"\\Z"' + _S5_HELPER_AT)]},
+    {"name": "stress5:regex-pieces-anchor-appended-by-a-helper", "edits": _s5_pieces(anchor="                    _close(pieces, static)\n") + [(R, _S5_HELPER_AT, _S5_CLOSE_HELPER % "not static" + _S5_HELPER_AT)]},
+    {"name": "stress5:anchor-format-two-fields", "edits": _s5_tail('"{}{}".format(content, r"\\Z")')},
+    {"name": "stress5:anchor-format-numbered-fields", "edits": _s5_tail('"{0}{1}".format(content, r"\\Z")')},
+    {"name": "stress5:anchor-format-named-fields", "edits": _s5_tail('"{body}{end}".format(body=content, end=r"\\Z")')},
+    {"name": "stress5:anchor-percent-two-values", "edits": _s5_tail('"%s%s" % (content, r"\\Z")')},
+    {"name": "stress5:slash-suffix-through-format", "edits": [(R, _S5_SUFFIX, '            content = "{}{}".format(content[:-1], "(?<!/)(/?)")\n')]},
+    {"name": "stress5:slash-suffix-through-percent", "edits": [(R, _S5_SUFFIX, '            content = "%s(?<!/)(/?)" % content[:-1]\n')]},
+    {"name": "stress5:map-add-loop-body-in-a-private-method", "edits": [(P, _S5_ADD_BODY, _S5_ADD_LOOP + "        self._remap = True\n" + _S5_ADD_HELPER)]},
+    {"name": "stress5:map-add-private-method-marks-the-map-itself", "edits": [(P, _S5_ADD_BODY, _S5_ADD_LOOP + _S5_ADD_HELPER + "        self._remap = True\n")]},
+    {"name": "stress5:map-add-two-levels-of-private-methods", "edits": [(P, _S5_ADD_BODY, _S5_ADD_LOOP + "        self._remap = True\n" + _S5_ADD_HELPER.replace("            self._matcher.add(rule)\n", "            self._register(rule)\n") + "\n    def _register(self, rule: Rule) -> None:\n        self._matcher.add(rule)\n")]},
+]
+MUTANTS += [
+    {"name": "stress5:cached-pattern-applied-with-search", "expect": "R3.7", "edits": [(M, _S5_INIT, _S5_INIT_CACHE), (M, _S5_APPLY, _S5_CACHE_INLINE % "search")]},
+    {"name": "stress5:pattern-from-caching-method-applied-with-search", "expect": "R3.7", "edits": [(M, _S5_INIT, _S5_INIT_CACHE), (M, _S5_MATCH_AT, _S5_CACHE_METHOD), (M, _S5_APPLY, "                match = self._compiled(test_part.content).search(target)\n")]},
+    {"name": "stress5:cache-entry-read-back-and-applied-with-search", "expect": "R3.7", "edits": [(M, _S5_INIT, _S5_INIT_CACHE), (M, _S5_APPLY, "                if test_part.content not in self._patterns:\n                    self._patterns[test_part.content] = re.compile(test_part.content)\n                match = self._patterns[test_part.content].search(target)\n")]},
+    {"name": "stress5:regex-pieces-anchor-never-appended", "expect": "R3.7", "edits": _s5_pieces(anchor="")},
+    {"name": "stress5:regex-pieces-anchor-put-in-front", "expect": "R3.7", "edits": _s5_pieces(anchor='                    if not static:\n                        pieces.insert(0, r"\\Z")\n')},
+    {"name": "stress5:regex-pieces-joining-helper-forgets-the-anchor", "expect": "R3.7", "edits": _s5_pieces(anchor="", join="_text(pieces, static)")[:6] + [_S5_JOIN_TAIL, (R, _S5_HELPER_AT, _S5_TEXT_HELPER % '""' + _S5_HELPER_AT)]},
+    {"name": "stress5:regex-pieces-helper-anchors-only-static-parts", "expect": "R3.7", "edits": _s5_pieces(anchor="                    _close(pieces, static)\n") + [(R, _S5_HELPER_AT, _S5_CLOSE_HELPER % "static" + _S5_HELPER_AT)]},
+    {"name": "stress5:anchor-format-fields-swapped", "expect": "R3.7", "edits": _s5_tail('"{1}{0}".format(content, r"\\Z")')},
+    {"name": "stress5:anchor-percent-values-swapped", "expect": "R3.7", "edits": _s5_tail('"%s%s" % (r"\\Z", content)')},
+    {"name": "stress5:anchor-format-second-field-empty", "expect": "R3.7", "edits": _s5_tail('"{}{}".format(content, "")')},
+    {"name": "stress5:slash-suffix-through-format-not-capturing", "expect": "R3.8", "edits": [(R, _S5_SUFFIX, '            content = "{}{}".format(content[:-1], "(?<!/)(?:/?)")\n')]},
+    {"name": "stress5:slash-suffix-through-format-mandatory", "expect": "R3.8", "edits": [(R, _S5_SUFFIX, '            content = "{}{}".format(content[:-1], "(?<!/)(/)")\n')]},
+    {"name": "stress5:map-add-private-method-and-no-remap", "expect": "R3.1", "edits": [(P, _S5_ADD_BODY, _S5_ADD_LOOP + _S5_ADD_HELPER)]},
+    {"name": "stress5:map-add-private-method-marks-only-build-only-rules", "expect": "R3.1", "edits": [(P, _S5_ADD_BODY, _S5_ADD_LOOP + _S5_ADD_HELPER.replace("        if not rule.build_only:\n            self._matcher.add(rule)\n", "        if not rule.build_only:\n            self._matcher.add(rule)\n        else:\n            self._remap = True\n"))]},
+]
+
+# Neutral refactorings (round 5, written by a fresh author, tests + differential run identical) on which the check still
+# gives up (exit 2, no false alarm): kept here as text edits for a later round; not run by the self-validation.
+UNDECIDED = [
+    {"name": 'stress5:search-bookkeeping-in-a-mutable-dataclass-instead-of-two-nonlocals', "edits": [
+        (M, '    static: dict[str, State] = field(default_factory=dict)\n\n\nclass StateMachineMatcher:\n    def __init__(self, merge_slashes: bool) -> None:\n        self._root = State()\n        self.merge_slashes = merge_slashes\n\n    def add(self, rule: Rule) -> None:\n        state = self._root\n        for part in rule._parts:\n            if part.static:\n                state.static.setdefault(part.content, State())\n                state = state.static[part.content]\n            else:\n                for test_part, new_state in state.dynamic:\n                    if test_part == part:\n                        state = new_state\n                        break\n                else:\n                    new_state = State()\n                    state.dynamic.append((part, new_state))\n                    state = new_state\n        state.rules.append(rule)\n\n    def update(self) -> None:\n        # For every state the dynamic transitions should be sorted by\n        # the weight of the transition\n        state = self._root\n\n        def _update_state(state: State) -> None:\n            state.dynamic.sort(key=lambda entry: entry[0].weight)\n            for new_state in state.static.values():\n                _update_state(new_state)\n            for _, new_state in state.dynamic:\n                _update_state(new_state)\n\n        _update_state(state)\n\n    def match(\n        self, domain: str, path: str, method: str, websocket: bool\n    ) -> tuple[Rule, t.MutableMapping[str, t.Any]]:\n        # To match to a rule we need to start at the root state and\n        # try to follow the transitions until we find a match, or find\n        # there is no transition to follow.\n\n        have_match_for = set()\n        websocket_mismatch = False\n\n        def _match(\n            state: State, parts: list[str], values: list[str]\n        ) -> tuple[Rule, list[str]] | None:\n            # This function is meant to be called recursively, and will attempt\n            # to match the head part to the state\'s transitions.\n            nonlocal have_match_for, websocket_mismatch\n\n            # The base case is when all parts have been matched via\n            # transitions. Hence if there is a rule with methods &\n            # websocket that work return it and the dynamic values\n            # extracted.\n            if parts == []:\n                for rule in state.rules:\n                    if rule.methods is not None and method not in rule.methods:\n                        have_match_for.update(rule.methods)\n                    elif rule.websocket != websocket:\n                        websocket_mismatch = True\n                    else:\n                        return rule, values\n\n                # Test if there is a match with this path with a\n                # trailing slash, if so raise an exception to report\n                # that matching is possible with an additional slash\n                if "" in state.static:\n                    for rule in state.static[""].rules:\n                        if websocket == rule.websocket and (\n                            rule.methods is None or method in rule.methods\n                        ):\n                            if rule.strict_slashes:\n                                raise SlashRequired()\n                            else:\n                                return rule, values\n                        elif (\n                            not rule.strict_slashes\n                            and rule.methods is not None\n                            and method not in rule.methods\n                        ):\n                            have_match_for.update(rule.methods)\n                return None\n\n            part = parts[0]\n            # To match this part try the static transitions first\n            if part in state.static:\n                rv = _match(state.static[part], parts[1:], values)\n                if rv is not None:\n                    return rv\n            # No match via the static transitions, so try the dynamic\n            # ones.\n            for test_part, new_state in state.dynamic:\n                target = part\n                remaining = parts[1:]\n                # A final part indicates a transition that always\n                # consumes the remaining parts i.e. transitions to a\n                # final state.\n                if test_part.final:\n                    target = "/".join(parts)\n                    remaining = []\n                match = re.compile(test_part.content).match(target)\n                if match is not None:\n                    if test_part.suffixed:\n                        # If a part_isolating=False part has a slash suffix, remove the\n                        # suffix from the match and check for the slash redirect next.\n                        suffix = match.groups()[-1]\n                        if suffix == "/":\n                            remaining = [""]\n\n                    converter_groups = sorted(\n                        match.groupdict().items(), key=lambda entry: entry[0]\n                    )\n                    groups = [\n                        value\n                        for key, value in converter_groups\n                        if key[:11] == "__werkzeug_"\n                    ]\n                    rv = _match(new_state, remaining, values + groups)\n                    if rv is not None:\n                        return rv\n\n            # If there is no match and the only part left is a\n            # trailing slash ("") consider rules that aren\'t\n            # strict-slashes as these should match if there is a final\n            # slash part.\n            if parts == [""]:\n                for rule in state.rules:\n                    if rule.strict_slashes:\n                        continue\n                    if rule.methods is not None and method not in rule.methods:\n                        have_match_for.update(rule.methods)\n                    elif rule.websocket != websocket:\n                        websocket_mismatch = True\n                    else:\n                        return rule, values\n\n            return None\n\n        try:\n            rv = _match(self._root, [domain, *path.split("/")], [])\n        except SlashRequired:\n            raise RequestPath(f"{path}/") from None\n\n        if self.merge_slashes and rv is None:\n            # Try to match again, but with slashes merged\n            path = re.sub("/{2,}?", "/", path)\n            try:\n                rv = _match(self._root, [domain, *path.split("/")], [])\n            except SlashRequired:\n                raise RequestPath(f"{path}/") from None\n            if rv is None or rv[0].merge_slashes is False:\n                raise NoMatch(have_match_for, websocket_mismatch)\n            else:\n                raise RequestPath(f"{path}")\n        elif rv is not None:\n            rule, values = rv\n\n            result = {}\n            for name, value in zip(rule._converters.keys(), values):\n                try:\n                    value = rule._converters[name].to_python(value)\n                except ValidationError:\n                    raise NoMatch(have_match_for, websocket_mismatch) from None\n                result[str(name)] = value\n            if rule.defaults:\n                result.update(rule.defaults)\n\n            if rule.alias and rule.map.redirect_defaults:\n                raise RequestAliasRedirect(result, rule.endpoint)\n\n            return rule, result\n\n        raise NoMatch(have_match_for, websocket_mismatch)\n', '    static: dict[str, State] = field(default_factory=dict)\n\n\n@dataclass\nclass _Mismatch:\n    """Why the rules that fit a path were rejected during one match."""\n\n    methods: set[str] = field(default_factory=set)\n    websocket: bool = False\n\n\nclass StateMachineMatcher:\n    def __init__(self, merge_slashes: bool) -> None:\n        self._root = State()\n        self.merge_slashes = merge_slashes\n\n    def add(self, rule: Rule) -> None:\n        state = self._root\n        for part in rule._parts:\n            if part.static:\n                state.static.setdefault(part.content, State())\n                state = state.static[part.content]\n            else:\n                for test_part, new_state in state.dynamic:\n                    if test_part == part:\n                        state = new_state\n                        break\n                else:\n                    new_state = State()\n                    state.dynamic.append((part, new_state))\n                    state = new_state\n        state.rules.append(rule)\n\n    def update(self) -> None:\n        # For every state the dynamic transitions should be sorted by\n        # the weight of the transition\n        state = self._root\n\n        def _update_state(state: State) -> None:\n            state.dynamic.sort(key=lambda entry: entry[0].weight)\n            for new_state in state.static.values():\n                _update_state(new_state)\n            for _, new_state in state.dynamic:\n                _update_state(new_state)\n\n        _update_state(state)\n\n    def match(\n        self, domain: str, path: str, method: str, websocket: bool\n    ) -> tuple[Rule, t.MutableMapping[str, t.Any]]:\n        # To match to a rule we need to start at the root state and\n        # try to follow the transitions until we find a match, or find\n        # there is no transition to follow.\n\n        mismatch = _Mismatch()\n\n        def _match(\n            state: State, parts: list[str], values: list[str]\n        ) -> tuple[Rule, list[str]] | None:\n            # This function is meant to be called recursively, and will attempt\n            # to match the head part to the state\'s transitions.\n\n            # The base case is when all parts have been matched via\n            # transitions. Hence if there is a rule with methods &\n            # websocket that work return it and the dynamic values\n            # extracted.\n            if parts == []:\n                for rule in state.rules:\n                    if rule.methods is not None and method not in rule.methods:\n                        mismatch.methods.update(rule.methods)\n                    elif rule.websocket != websocket:\n                        mismatch.websocket = True\n                    else:\n                        return rule, values\n\n                # Test if there is a match with this path with a\n                # trailing slash, if so raise an exception to report\n                # that matching is possible with an additional slash\n                if "" in state.static:\n                    for rule in state.static[""].rules:\n                        if websocket == rule.websocket and (\n                            rule.methods is None or method in rule.methods\n                        ):\n                            if rule.strict_slashes:\n                                raise SlashRequired()\n                            else:\n                                return rule, values\n                        elif (\n                            not rule.strict_slashes\n                            and rule.methods is not None\n                            and method not in rule.methods\n                        ):\n                            mismatch.methods.update(rule.methods)\n                return None\n\n            part = parts[0]\n            # To match this part try the static transitions first\n            if part in state.static:\n                rv = _match(state.static[part], parts[1:], values)\n                if rv is not None:\n                    return rv\n            # No match via the static transitions, so try the dynamic\n            # ones.\n            for test_part, new_state in state.dynamic:\n                target = part\n                remaining = parts[1:]\n                # A final part indicates a transition that always\n                # consumes the remaining parts i.e. transitions to a\n                # final state.\n                if test_part.final:\n                    target = "/".join(parts)\n                    remaining = []\n                match = re.compile(test_part.content).match(target)\n                if match is not None:\n                    if test_part.suffixed:\n                        # If a part_isolating=False part has a slash suffix, remove the\n                        # suffix from the match and check for the slash redirect next.\n                        suffix = match.groups()[-1]\n                        if suffix == "/":\n                            remaining = [""]\n\n                    converter_groups = sorted(\n                        match.groupdict().items(), key=lambda entry: entry[0]\n                    )\n                    groups = [\n                        value\n                        for key, value in converter_groups\n                        if key[:11] == "__werkzeug_"\n                    ]\n                    rv = _match(new_state, remaining, values + groups)\n                    if rv is not None:\n                        return rv\n\n            # If there is no match and the only part left is a\n            # trailing slash ("") consider rules that aren\'t\n            # strict-slashes as these should match if there is a final\n            # slash part.\n            if parts == [""]:\n                for rule in state.rules:\n                    if rule.strict_slashes:\n                        continue\n                    if rule.methods is not None and method not in rule.methods:\n                        mismatch.methods.update(rule.methods)\n                    elif rule.websocket != websocket:\n                        mismatch.websocket = True\n                    else:\n                        return rule, values\n\n            return None\n\n        try:\n            rv = _match(self._root, [domain, *path.split("/")], [])\n        except SlashRequired:\n            raise RequestPath(f"{path}/") from None\n\n        if self.merge_slashes and rv is None:\n            # Try to match again, but with slashes merged\n            path = re.sub("/{2,}?", "/", path)\n            try:\n                rv = _match(self._root, [domain, *path.split("/")], [])\n            except SlashRequired:\n                raise RequestPath(f"{path}/") from None\n            if rv is None or rv[0].merge_slashes is False:\n                raise NoMatch(mismatch.methods, mismatch.websocket)\n            else:\n                raise RequestPath(f"{path}")\n        elif rv is not None:\n            rule, values = rv\n\n            converters = rule._converters\n            try:\n                result = {\n                    str(name): converters[name].to_python(value)\n                    for name, value in zip(converters, values)\n                }\n            except ValidationError:\n                raise NoMatch(mismatch.methods, mismatch.websocket) from None\n            result.update(rule.defaults or {})\n\n            if rule.alias and rule.map.redirect_defaults:\n                raise RequestAliasRedirect(result, rule.endpoint)\n\n            return rule, result\n\n        raise NoMatch(mismatch.methods, mismatch.websocket)\n'),
+    ]},
+    {"name": 'stress5:add-and-update-moved-onto-the-State-dataclass', "edits": [
+        (M, '\n\nclass StateMachineMatcher:\n    def __init__(self, merge_slashes: bool) -> None:\n        self._root = State()\n        self.merge_slashes = merge_slashes\n\n    def add(self, rule: Rule) -> None:\n        state = self._root\n        for part in rule._parts:\n            if part.static:\n                state.static.setdefault(part.content, State())\n                state = state.static[part.content]\n            else:\n                for test_part, new_state in state.dynamic:\n                    if test_part == part:\n                        state = new_state\n                        break\n                else:\n                    new_state = State()\n                    state.dynamic.append((part, new_state))\n                    state = new_state\n        state.rules.append(rule)\n\n    def update(self) -> None:\n        # For every state the dynamic transitions should be sorted by\n        # the weight of the transition\n        state = self._root\n\n        def _update_state(state: State) -> None:\n            state.dynamic.sort(key=lambda entry: entry[0].weight)\n            for new_state in state.static.values():\n                _update_state(new_state)\n            for _, new_state in state.dynamic:\n                _update_state(new_state)\n\n        _update_state(state)\n', '\n    def follow(self, part: RulePart) -> State:\n        """The state reached via *part*, adding the transition if needed."""\n        if part.static:\n            try:\n                return self.static[part.content]\n            except KeyError:\n                self.static[part.content] = new_state = State()\n                return new_state\n\n        for test_part, new_state in self.dynamic:\n            if test_part == part:\n                return new_state\n\n        new_state = State()\n        self.dynamic.append((part, new_state))\n        return new_state\n\n    def sort_transitions(self) -> None:\n        """Order the dynamic transitions by weight, here and below."""\n        self.dynamic[:] = sorted(self.dynamic, key=lambda entry: entry[0].weight)\n        for new_state in self.static.values():\n            new_state.sort_transitions()\n        for _, new_state in self.dynamic:\n            new_state.sort_transitions()\n\n\nclass StateMachineMatcher:\n    def __init__(self, merge_slashes: bool) -> None:\n        self._root = State()\n        self.merge_slashes = merge_slashes\n\n    def add(self, rule: Rule) -> None:\n        state = self._root\n        for part in rule._parts:\n            state = state.follow(part)\n        state.rules.append(rule)\n\n    def update(self) -> None:\n        # For every state the dynamic transitions should be sorted by\n        # the weight of the transition\n        self._root.sort_transitions()\n'),
+    ]},
+]
